@@ -12920,6 +12920,7 @@ class Prefix(SequenceBase):
         decl_spec_list = []
         keyword_list = []
         split = string.split()
+        remaining = string.strip()
         # Match prefix-spec (apart from declaration-type-spec) from
         # the left end of the string. These can be tokenised with a
         # simple split as they are guaranteed to not contain any
@@ -12927,18 +12928,20 @@ class Prefix(SequenceBase):
         while split and split[0].upper() in Prefix_Spec.keywords:
             start_match_list.append(Prefix_Spec(split[0]))
             keyword_list.append(split[0].upper())
+            remaining = remaining[len(split[0]) :].lstrip()
             split = split[1:]
         # Match prefix-spec (apart from declaration-type-spec) from
         # the right end of the string.
         while split and split[-1].upper() in Prefix_Spec.keywords:
             end_match_list.insert(0, Prefix_Spec(split[-1]))
             keyword_list.append(split[-1].upper())
+            remaining = remaining[: -len(split[-1])].rstrip()
             split = split[:-1]
         # What is remaining must be a declaration-type-spec (or is
         # empty) as only one of each prefix-spec is allowed in a
-        # prefix (C1240). This may contain internal white space so
-        # join the remaining parts together.
-        remaining = " ".join(split)
+        # prefix (C1240). This may contain internal white space
+        # (including white space within a character literal) so it
+        # is taken unchanged from the original string.
         if remaining:
             decl_spec_list = [Declaration_Type_Spec(remaining)]
         if len(set(keyword_list)) != len(keyword_list):
